@@ -97,7 +97,9 @@ Print Assumptions C07_terminates.
 (* Whole sessions: a Doist built with tock0 under any clock, then any number of
    do() runs, each after an arbitrary clock step (time passing, a step back)
    and an optional `doist.tock = x`: every run is not early and lossless with
-   respect to the tock in force when it starts ([eff_tocks]). *)
+   respect to the tock in force when it starts ([eff_tocks]).  Assignments to
+   doist.tock made by doers while a run is under way ([i_sets]) are not an input
+   of [do_real] at all: the pace of the running loop is the tock of its start. *)
 Theorem C07_sessions : forall fuel t0 tock0 rs os runs outs,
   Forall step_ok rs -> Forall slp_ok os -> Forall run_ok runs ->
   play VSync fuel t0 tock0 rs os runs = Some outs ->
@@ -105,9 +107,10 @@ Theorem C07_sessions : forall fuel t0 tock0 rs os runs outs,
 Proof. exact play_runs. Qed.
 Print Assumptions C07_sessions.
 
-Example C07_sessions_example :   (* the two fixed defects' inputs in one session: step back before run 1, tock reassigned for run 2 *)
-  let runs := [{| i_pre := (40, 840); i_tock := None; i_works := [(0, 0); (0, 0); (0, 0)] |};
-               {| i_pre := (3, 0); i_tock := Some 16; i_works := [(1, 0); (1, 0)] |}] in
+Example C07_sessions_example :   (* the two fixed defects' inputs in one session: step back before run 1, tock reassigned for run 2;
+     a doer sets doist.tock to 1/8 s in cycle 1 of run 1: that run keeps its pace of 4 units *)
+  let runs := [{| i_pre := (40, 840); i_tock := None; i_works := [(0, 0); (0, 0); (0, 0)]; i_sets := [None; Some 1; None] |};
+               {| i_pre := (3, 0); i_tock := Some 16; i_works := [(1, 0); (1, 0)]; i_sets := [] |}] in
   Forall run_ok runs /\ eff_tocks 4 runs = [4; 16] /\
   match play VSync 3 8000 4 [] [] runs with
   | Some [o1; o2] => map c_mono (r_cycles o1) = [40; 44; 48] /\ r_end_mono o1 = 52 /\
@@ -125,7 +128,7 @@ Qed.
    (1/2 s = 4 units); `doist.tock = 2.0` (16 units) before do() is ignored and
    cycle 1 starts after 4 units instead of 16. *)
 Theorem C07_D4_refuted : exists outs o c,
-  play VOrig 4 8000 4 [] [] [{| i_pre := (0, 0); i_tock := Some 16; i_works := [(0, 0); (0, 0); (0, 0)] |}] = Some outs /\
+  play VOrig 4 8000 4 [] [] [{| i_pre := (0, 0); i_tock := Some 16; i_works := [(0, 0); (0, 0); (0, 0)]; i_sets := [] |}] = Some outs /\
   nth_error outs 0 = Some o /\ nth_error (r_cycles o) 1 = Some c /\
   c_mono c < r_mono o + 1 * 16.
 Proof. do 3 eexists. vm_compute. repeat split. Qed.
@@ -136,7 +139,7 @@ Print Assumptions C07_D4_refuted.
    `expired` shift the fresh deadline back by the whole step: cycles 1, 2, 3
    start with no time elapsed at all. *)
 Theorem C07_stale_last_refuted : exists outs o c,
-  play VTock 4 8000 4 [] [] [{| i_pre := (40, 840); i_tock := None; i_works := [(0, 0); (0, 0); (0, 0); (0, 0)] |}] = Some outs /\
+  play VTock 4 8000 4 [] [] [{| i_pre := (40, 840); i_tock := None; i_works := [(0, 0); (0, 0); (0, 0); (0, 0)]; i_sets := [] |}] = Some outs /\
   nth_error outs 0 = Some o /\ nth_error (r_cycles o) 3 = Some c /\
   c_mono c = r_mono o /\ c_mono c < r_mono o + 3 * 4.
 Proof. do 3 eexists. vm_compute. repeat split. Qed.
@@ -206,7 +209,7 @@ Proof. exact aplay_runs. Qed.
 Print Assumptions C07_ado_sessions.
 
 Example C07_ado_example :   (* unit 1/8 s; tock 1/2 s at construction, 2 s assigned before ado(); late cycle 1, one early wakeup, one overshoot *)
-  let runs := [{| i_pre := (5, 0); i_tock := Some 16; i_works := [(2, 0); (40, 0); (2, 0); (2, 0)] |}] in
+  let runs := [{| i_pre := (5, 0); i_tock := Some 16; i_works := [(2, 0); (40, 0); (2, 0); (2, 0)]; i_sets := [] |}] in
   Forall run_ok runs /\
   match aplay 3 100 4 [(0, 0); (1, 0)] [Early 6; Over 0; Over 3] runs with
   | Some [o] => r_now o = 106 /\ map c_stop (r_cycles o) = [122; 138; 154; 170] /\
@@ -226,7 +229,7 @@ From Coq Require Import PrimFloat.
 Example C07_binary64_residue : exists outs o,
   let tock := 0x1.5555555555555p-2%float in
   play VSync 4 0x1.954fc4007e6b4p+30%float tock [] []
-       [{| i_pre := (0%float, 0%float); i_tock := None; i_works := repeat (0%float, 0%float) 12 |}] = Some outs /\
+       [{| i_pre := (0%float, 0%float); i_tock := None; i_works := repeat (0%float, 0%float) 12; i_sets := [] |}] = Some outs /\
   nth_error outs 0 = Some o /\
   PrimFloat.ltb (r_end_mono o) (PrimFloat.mul 12 tock) = true /\
   PrimFloat.ltb (PrimFloat.sub (PrimFloat.mul 12 tock) 0x1p-19) (r_end_mono o) = true.
